@@ -1,5 +1,5 @@
 """C10 — A crash or I/O failure during rotation does not destroy flushed records."""
-import gzip as pygzip, json, os, re, shutil, subprocess, tempfile, time
+import datetime, gzip as pygzip, json, os, re, shutil, subprocess, tempfile, time
 from concurrent.futures import ThreadPoolExecutor
 import vlib
 
@@ -20,7 +20,8 @@ META = {
             '(regex translation of rotate/compressFile/removeOldFiles/findNextIndexForDate/send/FileSink ctor); extraction + '
             'ocaml/drv_crash.ml; harness/h_crash.cpp; strace as tracer and injector (a process dies BEFORE the k-th call takes effect); '
             'Python gzip as decoder. Modelled, not verified: the kernel file system (rename/unlink/open atomic), QFile buffering, '
-            'one calendar day per run. Outside C10 (by its own fault set): errors of write/close on the .gz (F8: never checked before '
+            'one calendar day per run (the model has no dates: a rotated name is its index; runs happen in UTC and in zones whose date differs from the UTC date by +1/-1, '
+            'where the real names must still all carry one date). Outside C10 (by its own fault set): errors of write/close on the .gz (F8: never checked before '
             'the original is removed) - those steps are non-failing in the model; power loss (no fsync); partial writes; '
             "QFile::rename's block-copy fallback interrupted by a crash (a second fault).",
     'design_ref': 'DESIGN.md section 4, C10',
@@ -42,20 +43,79 @@ def name_re(fname):
 ERRNOS = ('EACCES', 'ENOSPC', 'EIO')
 
 
+# ------------------------------------------------------------------------------------------ time zones
+# The rotated names carry a calendar date that the sink takes from three clocks: "now" (QDate::currentDate), the
+# modification time of a non-empty active file found at start-up, and the time stamp of the message.  They agree only
+# if all three are read in the same calendar.  A run in UTC cannot tell local from UTC dates apart, so part of the
+# configurations run with TZ set to a zone whose calendar date is one AHEAD of (east) or one BEHIND (west) the UTC date
+# at this very moment: a real zone when one qualifies with twenty minutes to spare (UTC+14 Kiritimati, UTC-12 Baker
+# Island), else a synthetic POSIX zone 24 hours off (glibc accepts offsets up to 24 h), which qualifies at any time.
+def pick_tz(side, now=None):
+    now = now or datetime.datetime.utcnow()
+    m = now.hour * 60 + now.minute
+    if side == 'east':
+        return 'LINT-14' if 10 * 60 + 20 <= m <= 23 * 60 + 40 else '<+24>-24'
+    if side == 'west':
+        return '<-12>12' if 20 <= m <= 11 * 60 + 40 else '<-24>24'
+    return None
+
+
+def tz_offset_h(tz):
+    if not tz:
+        return 0
+    return -int(re.search(r'(-?\d+)$', tz).group(1))
+
+
+def dates_now(tz):
+    """(local calendar date in the zone, UTC calendar date) right now, as the strings the sink puts into names"""
+    u = datetime.datetime.utcnow()
+    return (u + datetime.timedelta(hours=tz_offset_h(tz))).strftime('%Y-%m-%d'), u.strftime('%Y-%m-%d')
+
+
+def run_env(tz):
+    e = dict(os.environ, LC_ALL='C.UTF-8')
+    if tz:
+        e['TZ'] = tz
+    else:
+        e.pop('TZ', None)
+    return e
+
+
+class Findings:
+    """findings of one configuration, held back until it is known that the calendar date did not change under it"""
+    def __init__(self, chk):
+        self.tier, self.failing, self.broken, self._chk = chk.tier, [], [], chk
+
+    def fail(self, what, replay, kind=None):
+        self.failing.append((what, replay, kind))
+
+    def broke(self, what, replay):
+        # at most two reports of one kind per configuration (a shifted name repeats at every crash point)
+        kind = replay.get('kind') if isinstance(replay, dict) else None
+        if sum(1 for _, r in self.broken if isinstance(r, dict) and r.get('kind') == kind) < 2:
+            self.broken.append((what, replay))
+
+    def commit(self):
+        for what, replay, kind in self.failing:
+            self._chk.fail(what, replay, kind=kind)
+        for what, replay in self.broken:
+            self._chk.broke(what, replay)
+
+
 # ------------------------------------------------------------------------------------------ real side
-def strace_run(crash, logdir, L, N, opts, start, sizes, inject=(), trace_path=None, fname='app.log'):
+def strace_run(crash, logdir, L, N, opts, start, sizes, inject=(), trace_path=None, fname='app.log', tz=None):
     cmd = ['strace', '-f', '-s', '48', '-o', trace_path or '/dev/null', '-e', TRACE]
     for i in inject:
         cmd += ['-e', 'inject=' + i]
     cmd += [crash, logdir, str(L), str(N), str(opts), str(start), ','.join(map(str, sizes)), fname]
-    p = subprocess.run(cmd, stdout=subprocess.PIPE, stderr=subprocess.PIPE, timeout=120, env=dict(os.environ, LC_ALL='C.UTF-8'))
+    p = subprocess.run(cmd, stdout=subprocess.PIPE, stderr=subprocess.PIPE, timeout=300, env=run_env(tz))
     done = [int(x.split()[1]) for x in p.stderr.decode('utf-8', 'replace').split('\n') if x.startswith('DONE')]
     return p.returncode, done
 
 
-def plain_run(crash, logdir, L, N, opts, start, sizes, fname='app.log', extra=()):
+def plain_run(crash, logdir, L, N, opts, start, sizes, fname='app.log', extra=(), tz=None):
     p = subprocess.run([crash, logdir, str(L), str(N), str(opts), str(start), ','.join(map(str, sizes)), fname] + list(extra),
-                       stdout=subprocess.PIPE, stderr=subprocess.PIPE, timeout=120, env=dict(os.environ, LC_ALL='C.UTF-8'))
+                       stdout=subprocess.PIPE, stderr=subprocess.PIPE, timeout=300, env=run_env(tz))
     return p.returncode
 
 
@@ -77,9 +137,16 @@ def parse_records(b):
     return recs, whole
 
 
-def read_dir(logdir, fname='app.log', ignore_foreign=False):
-    """real directory -> {model name: (complete, [(id,size)])}, anomalies"""
+FOREIGN_DATE = 100000
+
+
+def read_dir(logdir, fname='app.log', ignore_foreign=False, today=None):
+    """real directory -> {model name: (complete, [(id,size)])}, anomalies.
+    The model has one calendar day: rotated files are P<index> / G<index>.  With `today` given, a rotated file whose
+    name carries ANOTHER date is kept apart as index + FOREIGN_DATE * (1 + rank of that date) (it is a different file
+    from the one with the same index and today's date) and reported in the anomalies as 'date-mix ...'."""
     out, odd, dates = {}, [], set()
+    others = sorted({m.group(1) for m in (name_re(fname).match(f) for f in (os.listdir(logdir) if os.path.isdir(logdir) else [])) if m} - {today}) if today else []
     for f in sorted(os.listdir(logdir)) if os.path.isdir(logdir) else []:
         b = open(os.path.join(logdir, f), 'rb').read()
         if f == fname:
@@ -90,19 +157,22 @@ def read_dir(logdir, fname='app.log', ignore_foreign=False):
         if not m:
             odd.append('foreign file ' + f); continue
         dates.add(m.group(1))
+        idx = str(int(m.group(2)) + (FOREIGN_DATE * (1 + others.index(m.group(1))) if m.group(1) in others else 0))
         if m.group(3):
             try:
                 if len(b) < 18:
                     raise ValueError('shorter than header + trailer')   # gzip.decompress(b'') == b''
                 recs, whole = parse_records(pygzip.decompress(b))
-                out['G' + m.group(2)] = (whole, recs)
+                out['G' + idx] = (whole, recs)
             except Exception:
-                out['G' + m.group(2)] = (False, [])
+                out['G' + idx] = (False, [])
         else:
             recs, whole = parse_records(b)
-            out['P' + m.group(2)] = (whole, recs)
-    if len(dates) > 1:
+            out['P' + idx] = (whole, recs)
+    if today is None and len(dates) > 1:
         odd.append('midnight')
+    if others:
+        odd.append('date-mix ' + ','.join(sorted(dates)))
     return out, odd
 
 
@@ -279,27 +349,52 @@ class Model:
 
 # ------------------------------------------------------------------------------------------ one configuration
 def run_config(chk, crash, model, cfgv, stats, pool):
+    """one configuration; its findings are committed only if the calendar date (local, in the configuration's time
+    zone, and UTC) was the same from the first to the last process of it"""
+    tz = cfgv.get('tz')
+    d0 = dates_now(tz)
+    buf = Findings(chk)
+    try:
+        run_config_1(buf, crash, model, cfgv, stats, pool, tz, d0[0])
+    finally:
+        if dates_now(tz) != d0:
+            stats['skipped_midnight'] += 1
+        else:
+            buf.commit()
+
+
+def restart_sizes(L):
+    """what the sink started after a crash writes: the second and the third record each force a size rotation
+    (when L > 0 and N != 1), so that index search, compression and RETENTION of the new sink run on what the crash left"""
+    return [7, max(7, L), max(7, L)]
+
+
+def run_config_1(chk, crash, model, cfgv, stats, pool, tz, today):
     L, N, opts, sizesA, sizesB = cfgv['L'], cfgv['N'], cfgv['opts'], cfgv['sizesA'], cfgv['sizesB']
     preseed = cfgv.get('preseed', [])
     fname = cfgv.get('name', 'app.log')
     fbase, _, fsuf = fname.rpartition('.')
+    rs_sizes = restart_sizes(L)
     base = {'L': L, 'N': N, 'options': opts, 'phaseA_sizes': sizesA, 'phaseB_sizes': sizesB, 'preseed': preseed, 'file_name': fname,
-            'how': 'preseed = rotated files app.<today>.<index>.log[.gz] holding record r<id> put into the directory first (a directory left by '
-                   'earlier runs); h_crash <dir> L N options 0 <phaseA sizes> (untraced), then h_crash <dir> L N options <first id> <phaseB sizes> under strace'}
+            'TZ': tz, 'local_date': today, 'utc_date': dates_now(tz)[1], 'restart_sizes': rs_sizes,
+            'how': 'all processes run with the environment variable TZ as given (null = the machine\'s zone, UTC here; the other values make the local calendar '
+                   'date differ from the UTC date by one day at the time of the run); '
+                   'preseed = rotated files app.<today>.<index>.log[.gz] holding record r<id> put into the directory first (a directory left by '
+                   'earlier runs); h_crash <dir> L N options 0 <phaseA sizes> (untraced), then h_crash <dir> L N options <first id> <phaseB sizes> under strace; '
+                   'after a kill: h_crash <dir> L N options 100 <restart sizes>'}
     top = tempfile.mkdtemp(prefix='c10_', dir='/tmp')
     try:
         tmpl = os.path.join(top, 'tmpl')
         os.makedirs(tmpl)
-        today = time.strftime('%Y-%m-%d')
         for idx, gz, rid in preseed:
             data = b'r%05d\n' % rid
             with open(os.path.join(tmpl, '%s.%s.%d.%s%s' % (fbase, today, idx, fsuf, '.gz' if gz else '')), 'wb') as f:
                 f.write(pygzip.compress(data) if gz else data)
-        d_pre, _ = read_dir(tmpl, fname)
+        d_pre, _ = read_dir(tmpl, fname, today=today)
         if sizesA:
-            if plain_run(crash, tmpl, L, N, opts, 0, sizesA, fname) != 0:
+            if plain_run(crash, tmpl, L, N, opts, 0, sizesA, fname, tz=tz) != 0:
                 chk.broke('phase A run failed', dict(base, kind='harness')); return
-        d_tmpl, odd = read_dir(tmpl, fname)
+        d_tmpl, odd = read_dir(tmpl, fname, today=today)
         recsA = [(i, s) for i, s in enumerate(sizesA)]
         recsB = [(len(sizesA) + i, s) for i, s in enumerate(sizesB)]
         startB = len(sizesA)
@@ -313,14 +408,17 @@ def run_config(chk, crash, model, cfgv, stats, pool):
             return
         # (a) trace validation: dry run of phase B
         dry = os.path.join(top, 'dry'); shutil.copytree(tmpl, dry)
-        rc, done = strace_run(crash, dry, L, N, opts, startB, sizesB, trace_path=os.path.join(top, 'dry.tr'), fname=fname)
+        rc, done = strace_run(crash, dry, L, N, opts, startB, sizesB, trace_path=os.path.join(top, 'dry.tr'), fname=fname, tz=tz)
         ev, flushed = project(os.path.join(top, 'dry.tr'), dry, fname)
         real_toks = [x['tok'] for x in ev]
         model_toks = [t[:-1] for t in handle_closed_filter([t.split(':', 1)[1] for t in toksB])]
         stats['trace_steps'] += len(real_toks)
-        d_final, odd2 = read_dir(dry, fname)
-        if 'midnight' in odd + odd2:
-            stats['skipped_midnight'] += 1; return
+        d_final, odd2 = read_dir(dry, fname, today=today)
+        mix = [x for x in odd + odd2 if x.startswith('date-mix')]
+        if mix:
+            chk.broke('rotated files of one run carry different calendar dates (%s) although the local date was %s and the UTC date %s during '
+                      'the whole run (TZ=%s): the sink mixes calendars; directory %s' % (mix[-1][9:], today, base['utc_date'], tz, sorted(os.listdir(dry))),
+                      dict(base, kind='date-mix', directory=sorted(os.listdir(dry))))
         aligned = rc == 0 and real_toks == model_toks
         if not aligned:
             chk.broke('trace validation: the mutation system calls of the real history are %s, the model step list is %s' % (
@@ -333,23 +431,45 @@ def run_config(chk, crash, model, cfgv, stats, pool):
             stats['step_kinds'][t[0]] = stats['step_kinds'].get(t[0], 0) + 1
         pre_names = show_dir(d_tmpl)
 
+        # (a2) the extracted oracle on the COMPLETE run: everything that was in the directory before, and every record
+        # this sink flushed, is in an intact file at the end or went with a whole file the model's retention removes
+        szs_all = dict(recsA + recsB)
+        fl_all = [(i, szs_all[i]) for i in flushed if i in szs_all]
+        pre_all = pre_names + (';' if pre_names else '') + 'P9001=c:' + ','.join('%d.%d' % x for x in fl_all)
+        v = model.ask(['P%s | %s | %s' % (pre_all, statesB[-1][1], show_dir(d_final))])
+        stats['oracle_evaluations'] += 1
+        stats['whole_run_oracle'] = stats.get('whole_run_oracle', 0) + 1
+        if rc == 0 and [x.strip() for x in v] != ['1']:
+            stats['oracle_falsified'] += 1
+            have = {r for c, recs in d_final.values() if c for r in recs}
+            gone = {tuple(map(int, t.split('.'))) for t in statesB[-1][1].split(',') if t}
+            was = {r for c, recs in d_tmpl.values() if c for r in recs} | set(fl_all)
+            lost = sorted(i for i, _ in was - have - gone)
+            kept_older = sorted(i for i, _ in have if lost and i < max(lost))
+            chk.fail('a sink started on the directory an earlier sink left (TZ=%s, local date %s, UTC date %s), %d records written without any crash or failure: '
+                     'records %s are in no intact file although the retention policy (N=%d) accounts only for %s%s; before: %s; after: %s' % (
+                         tz, today, base['utc_date'], len(sizesB), lost, N, sorted(i for i, _ in gone),
+                         (' - while the older records %s are still kept' % kept_older) if kept_older else '', pre_names, sorted(os.listdir(dry))),
+                     dict(base, kind='run', lost_ids=lost, directory_before=pre_names, directory_after=show_dir(d_final), files_after=sorted(os.listdir(dry)),
+                          model_directory=statesB[-1][0], model_retired=statesB[-1][1], oracle=' '.join(v)), kind='run')
+
         # (b) real crashes: kill before the k-th mutation call, for every k
         def crash_point(k):
             x = ev[k]
             d = os.path.join(top, 'k%d' % k); shutil.copytree(tmpl, d)
             tr = os.path.join(top, 'k%d.tr' % k)
-            rc, done = strace_run(crash, d, L, N, opts, startB, sizesB, inject=['%s:signal=SIGKILL:when=%d' % (x['sc'], x['ordinal'])], trace_path=tr, fname=fname)
+            rc, done = strace_run(crash, d, L, N, opts, startB, sizesB, inject=['%s:signal=SIGKILL:when=%d' % (x['sc'], x['ordinal'])], trace_path=tr, fname=fname, tz=tz)
             evk, fl = project(tr, d, fname)
-            dk, _ = read_dir(d, fname)
-            # a new sink on what the crash left: two more writes
-            rc2 = plain_run(crash, d, L, N, opts, 100, [7, 7], fname)
-            dr, _ = read_dir(d, fname)
+            dk, _ = read_dir(d, fname, today=today)
+            # a new sink on what the crash left: three more writes, the last two rotating
+            rc2 = plain_run(crash, d, L, N, opts, 100, rs_sizes, fname, tz=tz)
+            dr, _ = read_dir(d, fname, today=today)
             shutil.rmtree(d, ignore_errors=True)
             return {'k': k, 'rc': rc, 'toks': [y['tok'] for y in evk], 'flushed': fl, 'dir': dk, 'rc2': rc2, 'after': dr}
         results = list(pool.map(crash_point, range(len(ev))))
         lines = []
         for r in results:
-            lines.append(Model.h_line(L, N, opts, None, show_dir(r['dir']), [(100, 7), (101, 7)]))
+            lines.append(Model.h_line(L, N, opts, None, show_dir(r['dir']), [(100 + i, z) for i, z in enumerate(rs_sizes)]))
         out = model.ask(lines)
         plines, pmeta = [], []
         for r in results:
@@ -390,6 +510,18 @@ def run_config(chk, crash, model, cfgv, stats, pool):
             plines.append('P%s | %s | %s' % (show_dir({n: v for n, v in r['dir'].items()}), statesR[-1][1] if statesR else '', show_dir(r['after'])))
             pmeta.append((rep2, 'restart'))
             stats['restarts'] += 1
+            nrot = sum(1 for t in toksR if re.match(r'^\d+:R\d+\+$', t))
+            stats['restart_rotations'] = stats.get('restart_rotations', 0) + nrot
+            stats['restarts_that_rotate'] = stats.get('restarts_that_rotate', 0) + (1 if nrot else 0)
+            half_gz = [n for n, (c, _) in r['dir'].items() if n[0] == 'G' and not c and 'P' + n[1:] in r['dir']]
+            if half_gz:
+                # the kill fell into the compression window: the complete original sits next to an unfinished .gz
+                key = 'restarts_on_original_plus_unfinished_gz'
+                stats[key] = stats.get(key, 0) + 1
+                if nrot and N > 1:
+                    stats[key + '_rotating_with_finite_N'] = stats.get(key + '_rotating_with_finite_N', 0) + 1
+                    if 'P' + half_gz[0][1:] in r['after']:
+                        stats[key + '_original_kept_inside_retention'] = stats.get(key + '_original_kept_inside_retention', 0) + 1
 
         # (c) single failures of rename / create / unlink / open
         failable = [k for k, x in enumerate(ev) if re.match(r'^(R\d+|Z\d+|U\d+|V[PG]\d+|O[at])$', x['tok'])]
@@ -415,9 +547,9 @@ def run_config(chk, crash, model, cfgv, stats, pool):
             d = os.path.join(top, 'f%d%s' % (k, en)); shutil.copytree(tmpl, d)
             tr = os.path.join(top, 'f%d%s.tr' % (k, en))
             inj = ['%s:error=%s:when=%d' % (x['sc'], en, x['ordinal'])]
-            rc, done = strace_run(crash, d, L, N, opts, startB, sizesB, inject=inj, trace_path=tr, fname=fname)
+            rc, done = strace_run(crash, d, L, N, opts, startB, sizesB, inject=inj, trace_path=tr, fname=fname, tz=tz)
             evf, fl = project(tr, d, fname)
-            res = [{'variant': 'syscall', 'rc': rc, 'toks': [(y['tok'], y['ok']) for y in evf], 'flushed': fl, 'dir': read_dir(d, fname)[0]}]
+            res = [{'variant': 'syscall', 'rc': rc, 'toks': [(y['tok'], y['ok']) for y in evf], 'flushed': fl, 'dir': read_dir(d, fname, today=today)[0]}]
             shutil.rmtree(d, ignore_errors=True)
             if x['tok'][0] == 'R':
                 # QFile::rename falls back to a block copy; make that fail as well so that QFile::rename itself fails
@@ -425,9 +557,9 @@ def run_config(chk, crash, model, cfgv, stats, pool):
                 if cp:
                     shutil.copytree(tmpl, d)
                     inj2 = inj + ['openat:error=%s:when=%d' % (en, cp[0]['ordinal'])]
-                    rc, done = strace_run(crash, d, L, N, opts, startB, sizesB, inject=inj2, trace_path=tr, fname=fname)
+                    rc, done = strace_run(crash, d, L, N, opts, startB, sizesB, inject=inj2, trace_path=tr, fname=fname, tz=tz)
                     evf, fl = project(tr, d, fname)
-                    res.append({'variant': 'qfile-rename', 'rc': rc, 'toks': [(y['tok'], y['ok']) for y in evf], 'flushed': fl, 'dir': read_dir(d, fname)[0]})
+                    res.append({'variant': 'qfile-rename', 'rc': rc, 'toks': [(y['tok'], y['ok']) for y in evf], 'flushed': fl, 'dir': read_dir(d, fname, today=today)[0]})
                     shutil.rmtree(d, ignore_errors=True)
             return k, en, res
         fres = list(pool.map(failure, jobs))
@@ -551,6 +683,13 @@ def configs(chk):
         out.append({'L': 20, 'N': 2, 'opts': 5, 'sizesA': [7, 7, 7], 'sizesB': [7] * 6, 'name': 'a*b(c).d.log'})
         out.append({'L': 8, 'N': 0, 'opts': 0, 'sizesA': [7, 7], 'sizesB': [7] * 4, 'name': 'worker[1].log'})
         out.append({'L': 8, 'N': 4, 'opts': 4, 'sizesA': [7], 'sizesB': [7] * 5, 'name': '[x]?.{1}.log'})
+    # compression with a finite count limit that is NOT reached: whatever a kill inside the compression window leaves
+    # (the complete original next to an unfinished .gz) must survive the rotations and the retention of the next sink
+    out.append({'L': 8, 'N': 10, 'opts': 4, 'sizesA': [7, 7], 'sizesB': [7] * 4})
+    out.append({'L': 20, 'N': 7, 'opts': 5, 'sizesA': [7, 7], 'sizesB': [7] * 5})
+    if thorough:
+        out.append({'L': 8, 'N': 100, 'opts': 4, 'sizesA': [7], 'sizesB': [7] * 6})
+        out.append({'L': 30, 'N': 1000, 'opts': 5, 'sizesA': [7, 12], 'sizesB': [12] * 6})
     # N <= 0 means "keep everything": nothing may ever be deleted, whatever the sign
     out.append({'L': 8, 'N': -1, 'opts': 0, 'sizesA': [], 'sizesB': [7] * 4})
     out.append({'L': 20, 'N': -5, 'opts': 4, 'sizesA': [], 'sizesB': [7] * 5})
@@ -560,11 +699,14 @@ def configs(chk):
     extra = 40 if thorough else 1
     for _ in range(extra):
         L = rng.choice((8, 15, 20, 30, 64))
-        out.append({'L': L, 'N': rng.choice((0, 2, 2, 3, 4, 1, -1)), 'opts': rng.choice((0, 4, 1, 5, 4, 5)),
+        out.append({'L': L, 'N': rng.choice((0, 2, 2, 3, 4, 1, -1, 9, 50)), 'opts': rng.choice((0, 4, 1, 5, 4, 5)),
                     'sizesA': [rng.choice((7, 8, 12, 20)) for _ in range(rng.randint(0, 4))],
                     'sizesB': [rng.choice((7, 7, 8, 13, 21, L, L + 1)) for _ in range(rng.randint(3, 8 if thorough else 6))]})
+    # time zone of the processes: every second configuration runs where the local calendar date is one ahead of the UTC
+    # date (east), every sixth where it is one behind (west), the others in the machine's zone
     for i, c in enumerate(out):
         c['idx'] = i
+        c['tz'] = pick_tz('east' if i % 2 == 1 else 'west' if i % 6 == 2 else None)
     return out
 
 
@@ -578,7 +720,8 @@ def run():
                    'kernel file system semantics (atomic rename/unlink/open), QFile buffering: modelled']
     chk.assumptions = ['faults: process death at any mutation-call boundary, or ONE failing rename/create(.gz)/unlink/open(O_CREAT) call; '
                        'write/close errors on the .gz are outside (F8) and so are power loss and partial writes',
-                       'one calendar day per history (runs that cross midnight are discarded and counted)',
+                       'one calendar day per history (configurations under which the local or the UTC date changes are discarded and counted); the day itself is '
+                       'arbitrary: part of the configurations run in a time zone whose calendar date is one ahead of / one behind the UTC date',
                        'no other process changes the directory']
     chk.proof(vlib.proof_leg('Properties_C10', ['crash']))
     model = Model(vlib.build_model('crash'))
@@ -591,7 +734,7 @@ def run():
     cfgs = configs(chk)
     with ThreadPoolExecutor(max_workers=16) as pool:
         for c in cfgs:
-            if len(chk.failing) + len(chk.broken) > 12:
+            if len(chk.failing) >= 5 or len(chk.failing) + len(chk.broken) > 40:
                 break
             run_config(chk, crash, model, c, stats, pool)
     two_sink_leg(chk, crash, model, stats)
@@ -600,7 +743,14 @@ def run():
                     'rule': 'one evaluation = one real process killed before a mutation call (directory vs model crash state + extracted oracle), '
                             'one restart on that directory, or one injected errno failure; every (configuration, k) / (configuration, step, errno) is distinct',
                     'configurations': stats['configs'], 'trace_steps_validated': stats['trace_steps'], 'crash_points': stats['crash_points'],
-                    'restarts': stats['restarts'], 'two_sink_runs': stats.get('two_sink_runs', 0), 'file_names': sorted({c.get('name', 'app.log') for c in cfgs}), 'single_failures': stats['failures'], 'oracle_evaluations': stats['oracle_evaluations'],
+                    'restarts': stats['restarts'], 'restarts_that_rotate': stats.get('restarts_that_rotate', 0), 'restart_rotations': stats.get('restart_rotations', 0),
+                    'restarts_on_original_plus_unfinished_gz': stats.get('restarts_on_original_plus_unfinished_gz', 0),
+                    'restarts_on_original_plus_unfinished_gz_rotating_with_finite_N': stats.get('restarts_on_original_plus_unfinished_gz_rotating_with_finite_N', 0),
+                    'restarts_on_original_plus_unfinished_gz_original_kept_inside_retention': stats.get('restarts_on_original_plus_unfinished_gz_original_kept_inside_retention', 0),
+                    'whole_run_oracle': stats.get('whole_run_oracle', 0),
+                    'time_zones': {str(z): sum(1 for c in cfgs if c.get('tz') == z) for z in sorted({c.get('tz') for c in cfgs}, key=str)},
+                    'configs_local_date_differs_from_utc': sum(1 for c in cfgs if c.get('tz')),
+                    'two_sink_runs': stats.get('two_sink_runs', 0), 'file_names': sorted({c.get('name', 'app.log') for c in cfgs}), 'single_failures': stats['failures'], 'oracle_evaluations': stats['oracle_evaluations'],
                     'oracle_falsified': stats['oracle_falsified'], 'crash_dir_mismatch': stats['crash_dir_mismatch'],
                     'restart_dir_mismatch': stats['restart_dir_mismatch'], 'skipped_midnight': stats['skipped_midnight'],
                     'step_kinds_in_traces': stats['step_kinds'], 'failure_kinds': stats['failure_kinds'],
@@ -621,7 +771,10 @@ def replay(path):
     stats = {'configs': 0, 'trace_steps': 0, 'crash_points': 0, 'restarts': 0, 'failures': 0, 'oracle_evaluations': 0, 'oracle_falsified': 0,
              'crash_dir_mismatch': 0, 'restart_dir_mismatch': 0, 'skipped_midnight': 0, 'step_kinds': {}, 'failure_kinds': {}, 'samples': [], 'reported': set()}
     with ThreadPoolExecutor(max_workers=16) as pool:
-        run_config(chk, crash, model, {'L': r['L'], 'N': r['N'], 'opts': r['options'], 'sizesA': r['phaseA_sizes'], 'sizesB': r['phaseB_sizes'], 'preseed': r.get('preseed', []), 'name': r.get('file_name', 'app.log'), 'idx': 0}, stats, pool)
+        tz = r.get('TZ')
+        if tz:      # the recorded zone made local date - UTC date = +1 / -1 at that time; take the zone that does so now
+            tz = pick_tz('east' if tz_offset_h(tz) > 0 else 'west')
+        run_config(chk, crash, model, {'L': r['L'], 'N': r['N'], 'opts': r['options'], 'sizesA': r['phaseA_sizes'], 'sizesB': r['phaseB_sizes'], 'preseed': r.get('preseed', []), 'name': r.get('file_name', 'app.log'), 'idx': 0, 'tz': tz}, stats, pool)
     print('recorded       ', {k: r[k] for k in r if k not in ('how',)})
     for what, obj in chk.failing:
         print('implementation ', what)
